@@ -106,6 +106,49 @@ func runC13(r *Run) {
 	}
 	r.Floor("R1", "SetPrevBlockTS call sites", nTS, 3)
 
+	r.Rule("R5", "SHAPE.the-coefficient-is-bounded-where-it-is-accepted: MintAndAllocate multiplies the bonded total by RewardCoefficient *before* it clamps to the cap, in 315-bit decimals that panic on overflow; the only place a coefficient is judged is validateRewardCoefficient (parameter changes and genesis). It therefore compares the asserted value against a bound (a GT/GTE/LT/LTE of the value or its Abs) and returns an error over one edge of that comparison — a validator that only checks the Go type accepts 1e70 %, after which every EndBlock panics with 'Int overflow'")
+	if vf, ok := P.FnOK("x/coinomics/types.validateRewardCoefficient"); ok {
+		bounded := false
+		for _, b := range vf.Blocks {
+			ifi, isIf := lastIf(b)
+			if !isIf {
+				continue
+			}
+			c, isC := stripValue(ifi.Cond).(*ssa.Call)
+			if u, isU := ifi.Cond.(*ssa.UnOp); isU && u.Op == token.NOT {
+				c, isC = stripValue(u.X).(*ssa.Call)
+			}
+			if !isC {
+				continue
+			}
+			ci := callInfo(c)
+			if ci.Recv != "LegacyDec" && ci.Recv != "Dec" {
+				continue
+			}
+			switch ci.Name {
+			case "GT", "GTE", "LT", "LTE":
+			default:
+				continue
+			}
+			// one side derives from the asserted parameter
+			fromParam := backSlice(c.Call.Args...).Any(func(v ssa.Value) bool { _, isTA := v.(*ssa.TypeAssert); return isTA })
+			failing := false
+			for _, su := range b.Succs {
+				for _, in := range su.Instrs {
+					if ret, ok := in.(*ssa.Return); ok && classifyExit(ret) == ExitFailure {
+						failing = true
+					}
+				}
+			}
+			if fromParam && failing {
+				bounded = true
+			}
+		}
+		r.Check(bounded, "R5", fnID(vf)+"#range-checked", P.Pos(fnPos(vf)), "a Dec comparison of the asserted value guards an error return",
+			"validateRewardCoefficient accepts every Dec: a parameter change to 1e70 % passes, and the next EndBlock panics 'Int overflow' in MintAndAllocate (bonded × coefficient) before the cap clamp — the chain halts instead of minting the remainder and switching minting off")
+	} else {
+		r.Bad("R5", "anchor/validateRewardCoefficient", "", "not found")
+	}
 	r.Rule("R4", "FLOW.configured-amounts-never-pass-an-unchecked-narrowing: a coin amount is a 256-bit integer and validation accepts any maximum supply ('no cap' is naturally written 2^256-1), while an 18-decimal sdk.Dec holds 315 bits; a conversion that can fail (it returns an error) may have its error discarded in the block-end code of x/coinomics only when its argument is a constant or a quantity of the running chain (a timestamp, bonded tokens, the supply) — never when it derives from the module's configuration (GetMaxSupply, a Params field): the discarded failure leaves a nil number behind, the comparison with it panics, EndBlock has no recover, and every node stops at that block")
 	{
 		nConv := 0
